@@ -383,6 +383,37 @@ def r5_unwrap(ctx, F):
     ctx.floor("C07.R5", "unwrap/expect calls in natives and StarlarkValue impls", n_un, 24, inventory=True)
 
 
+INDEX_SRC_OK = re.compile(r"^(index::convert_index|SmallMap::get_index_of_hashed|const|CharIndex as Sub::sub|"
+                          r"SmallMap::get_index_of|index::convert_slice_indices)$")
+
+
+def r8_indexing(ctx, F):
+    """direct slice indexing (`a[i]`, which panics when out of range) in natives and StarlarkValue impls uses an index
+    produced by the validating conversion (convert_index), a successful lookup, or a constant"""
+    n = 0
+    for f in F.fns.values():
+        if f.crate != "starlark":
+            continue
+        t = top_fn(F, f)
+        if not ("__starlark_invoke_impl" in t.qpath or re.search(r"as values::traits::StarlarkValue<'v>>::", t.qpath)):
+            continue
+        for b, term in f.terms.items():
+            if term[0] != "assert" or not term[2].startswith("BoundsCheck") or b in f.cleanup:
+                continue
+            m = re.search(r"index: (copy|move) (_\d+)", term[2])
+            if not m:
+                continue
+            n += 1
+            src = sorted({short_fn(o[1].name) if o[0] == "call" else o[0] for o in origins(f, m.group(2))})
+            bad = [x for x in src if not INDEX_SRC_OK.match(x)]
+            ctx.check(not bad, "C07.R8", "index-source:%s:%s" % (short_fn(t.qpath), "+".join(src)),
+                      "the index comes from a validating conversion / lookup / constant",
+                      "`%s` indexes a slice with a value from %s: an out-of-range index panics instead of returning "
+                      "an error (use convert_index / get)" % (short_fn(t.qpath), bad), fn=f,
+                      line=int(term[3].split("=")[1]))
+    ctx.floor("C07.R8", "direct slice indexing in value-facing bodies", n, 7, inventory=True)
+
+
 def r6_writer(ctx, F):
     for name in ("alloc_slot", "alloc_slots", "alloc_slots_for_exprs"):
         f = F.one(r"starlark::eval::bc::writer::BcWriter::<'f>::%s$" % name)
@@ -423,3 +454,4 @@ def run(ctx):
     r5_unwrap(ctx, F)
     r6_writer(ctx, F)
     r7_negation(ctx, F)
+    r8_indexing(ctx, F)
